@@ -14,7 +14,7 @@ corr():        model <-> implementation: the Lean model (KawinV.SaveLoad with th
                models with recording on / off / switched off / removed; StrengthModel; the dedicated recorded-PSD file);
                untrained surrogate getters against the thermodynamics call of the same quantity; trained surrogates at
                their training points; surrogates rebuilt from their JSON file."""
-import contextlib, inspect, io, json, math, os, shutil, tempfile, warnings
+import contextlib, inspect, io, json, math, os, shutil, tempfile, traceback, warnings
 import numpy as np
 import vlib
 from vlib import Result, enc_list, f2b, b2f, Toks, close
@@ -215,6 +215,8 @@ def extract_tables(new_model, names_of, getter, setter):
             setter(m, slot, None)
             try:
                 opt = k not in m.toDict()
+            except Exception:
+                opt = False
             finally:
                 setter(m, slot, vals[slot])
         writes.append((k, slot, opt))
@@ -244,6 +246,8 @@ def extract_tables(new_model, names_of, getter, setter):
             if k in keys:
                 raise
             keys.append(k)
+        except Exception:            # fromDict cannot digest what toDict wrote for this state: tabulate what happened up to the failure
+            break
     else:
         raise RuntimeError('fromDict keeps raising KeyError')
     names2 = names_of(m2)
@@ -257,7 +261,7 @@ def extract_tables(new_model, names_of, getter, setter):
         less = RecDict({kk: vv for kk, vv in fresh_data(keys).items() if kk != k})
         try:
             m3.fromDict(less); opt = True
-        except KeyError:
+        except Exception:           # KeyError, or any other failure caused by the missing key: the key is mandatory
             opt = False
         if not slots:
             reads.append((k, '?', opt))
@@ -532,12 +536,12 @@ def build_precip(cfg):
     vlib.use_repo()
     if cfg['system'] == 'AlZr':
         m = kwnruns.build_binary(x0=cfg['x0'], T=cfg['T'], gamma=cfg['gamma'], bins=cfg['bins'], minBins=cfg['minBins'],
-                                 maxBins=cfg['maxBins'], adaptive=cfg['adaptive'], record=False)
+                                 maxBins=cfg['maxBins'], adaptive=cfg['adaptive'], record=False, cMax=cfg.get('cMax', 1e-8))
     elif cfg['system'] == 'NiCrAl':
         m = kwnruns.build_ternary(x0=cfg['x0'], T=cfg['T'], bins=cfg['bins'], minBins=cfg['minBins'], maxBins=cfg['maxBins'])
     else:
         m = _build_almgsi(cfg)
-    if cfg['record']:
+    if cfg['record'] in (True, 'on-off'):
         m.setPSDrecording(True)
     return m
 
@@ -569,12 +573,15 @@ def _build_almgsi(cfg):
 def gen_precip_cfg(rng, system='AlZr'):
     if system == 'AlZr':
         bins = rng.choice([60, 75, 75, 90])
-        record = rng.random() < 0.5
+        cMax = 1e-8
+        if rng.random() < 0.35:            # narrow initial size range: the classes are extended / re-binned during the run
+            bins, cMax = rng.choice([40, 50, 60]), 2e-9
+        record = rng.choice([True, False, False, 'on-off', 'off-on'])     # PSD recording on / off / switched between the solve calls
         # PSD recording with adaptive=False is not generated: PopulationBalanceModel.record() pads to `bins` columns although the
         # arrays were allocated with maxBins columns and raises ValueError in the first step (the TODO in its docstring) - no run to save
-        return dict(system='AlZr', x0=round(8e-3 * rng.uniform(0.94, 1.1), 6), T=round(760.0 + rng.uniform(-8, 10), 2),
-                    gamma=0.1, bins=bins, minBins=bins - 25, maxBins=bins + 25, adaptive=True if record else rng.random() < 0.6,
-                    record=record, steps=[rng.randint(150, 210), rng.randint(110, 180)],
+        return dict(system='AlZr', cMax=cMax, x0=round(8e-3 * rng.uniform(0.94, 1.1), 6), T=round(760.0 + rng.uniform(-8, 10), 2),
+                    gamma=0.1, bins=bins, minBins=bins - (25 if cMax > 5e-9 else 10), maxBins=bins + (25 if cMax > 5e-9 else 20), adaptive=True if record else rng.random() < 0.6,
+                    record=record, steps=[rng.randint(140, 190), rng.randint(100, 150)] if cMax > 5e-9 else [rng.randint(270, 310), rng.randint(90, 130)],
                     solver='euler' if rng.random() < 0.75 else 'rk4', strength=True)
     if system == 'NiCrAl':
         return dict(system='NiCrAl', x0=(round(0.098 * rng.uniform(0.97, 1.03), 5), 0.083), T=1073.0, bins=75, minBins=50, maxBins=100,
@@ -602,7 +609,7 @@ class StubTherm:
 
 
 ELS = ['NI', 'CR', 'AL', 'CO', 'FE']
-REC_OPTIONS = ['on', 'on', 'off', 'off', 'switched-off', 'switched-on', 'removed']
+REC_OPTIONS = ['on', 'on', 'off', 'off', 'switched-off', 'switched-off', 'switched-on', 'removed', 'mesh-moved']
 
 
 def gen_diff_cfg(rng):
@@ -610,7 +617,10 @@ def gen_diff_cfg(rng):
     N = rng.randint(5, 40)
     L = 10 ** rng.uniform(-4.5, -2.5)
     ncalls = rng.randint(1, 3)
-    return dict(kind='stub', E=E, N=N, L=L, els=rng.sample(ELS, E + 1), rec=rng.choice(REC_OPTIONS), tseed=rng.getrandbits(30),
+    rec = rng.choice(REC_OPTIONS)
+    if rec in ('switched-off', 'switched-on'):
+        ncalls = max(ncalls, 2)             # the switch happens BETWEEN solve calls
+    return dict(kind='stub', E=E, N=N, L=L, els=rng.sample(ELS, E + 1), rec=rec, tseed=rng.getrandbits(30),
                 D0=10 ** rng.uniform(-15, -12), steps=[rng.randint(3, 40) for _ in range(ncalls)],
                 prof=[[round(rng.uniform(0.02, 0.9 / E), 4), round(rng.uniform(0.02, 0.9 / E), 4), rng.choice(['step', 'linear'])] for _ in range(E)],
                 solver=rng.choice(['euler', 'euler', 'rk4']), T=round(rng.uniform(900, 1400), 1))
@@ -640,7 +650,7 @@ def build_diff(cfg):
         else:
             cp.addLinearCompositionStep(el, a, b)
     zlim = [-cfg['L'] / 2, cfg['L'] / 2]
-    record = cfg['rec'] in ('on', 'switched-off', 'removed')
+    record = cfg['rec'] in ('on', 'switched-off', 'removed', 'mesh-moved')
     tp = TemperatureParameters(cfg['T'])
     if cfg['kind'] == 'stub':
         th = StubTherm(cfg['E'], cfg['tseed'], cfg['D0'])
@@ -770,11 +780,12 @@ def run_precip_case(res, ctx, tmp, cfg, lines, pending, resume=False):
         ok_all = ok_all and ok
         nontrivial = bool(m.pData.n > 0 and any(np.any(p.PSD > 0) for p in m.PBM))
         res.case(('P', cfg['system'], cfg['x0'] if not isinstance(cfg['x0'], tuple) else cfg['x0'][0], cfg['T'], cfg['record'], point), nontrivial)
-        res.count('precip:' + cfg['system']); res.count('precip-record:' + ('on' if cfg['record'] else 'off'))
+        res.count('precip:' + cfg['system']); res.count('precip-record:' + {True: 'on', False: 'off'}.get(cfg['record'], cfg['record']))
         res.count('precip-psd:' + ('populated' if nontrivial else 'empty'))
+        res.count('precip-size-classes:' + ('as-constructed' if all(int(p.bins) == int(p.originalBins) and float(p.max) == float(p.originalMax) for p in m.PBM) else 'adapted'))
         res.sample(dict(model='precipitation', **desc), cap=2)
         # the dedicated recorded-PSD file (MONITORED): reproduces the recorded history
-        if cfg['record']:
+        if all(p._record for p in m.PBM):
             base = os.path.join(tmp, 'psd_%d' % len(os.listdir(tmp)))
             m.saveRecordedPSD(base)
             for p, ph in enumerate(m.phases):
@@ -806,11 +817,23 @@ def run_precip_case(res, ctx, tmp, cfg, lines, pending, resume=False):
     fresh = None
     for i, n in enumerate(cfg['steps']):
         cap.solve(3600.0 * 2, n, cfg['solver'])
+        if i == 0 and cfg['record'] == 'on-off':
+            m.setPSDrecording(False)               # recording switched off BETWEEN solve calls (recorded data are kept)
+        if i == 0 and cfg['record'] == 'off-on':
+            m.setPSDrecording(True)                # ... or switched on
         fresh = check('between solve calls, after call %d' % (i + 1))
     # after completion: a last solve call that runs to its end time
     tnow = float(m.pData.time[-1])
     cap.solve(max(0.25 * tnow, 1e-3), 400, cfg['solver'])
     fresh = check('after completion of the last solve call')
+    # the size distribution moved back to a recorded time, then saved: the CURRENT state is what must come back
+    if all(p._record and p._recordedTime is not None and len(p._recordedTime) > 3 for p in m.PBM) and not resume:
+        tr = m.PBM[0]._recordedTime
+        tmid = float(tr[len(tr) // 2]) * 1.0000001
+        with _quiet():
+            for p in m.PBM:
+                p.setPSDtoRecordedTime(tmid)
+        check('after setPSDtoRecordedTime(%.6g)' % tmid)
     if resume and ok_all:
         resume_precip(res, cfg, m, fresh)
 
@@ -839,7 +862,7 @@ def run_diff_case(res, ctx, tmp, cfg, lines, pending, resume=False):
     dt = diff_dt_estimate(m, cfg)
     ok_all, fresh = True, None
     for i, n in enumerate(cfg['steps']):
-        if cfg['rec'] == 'switched-on' and i == len(cfg['steps']) - 1:
+        if cfg['rec'] == 'switched-on' and i == 1:
             m.enableRecording()
         if dt is not None:
             cap.solve(dt * n * 1.0001, n + 2, cfg['solver'])
@@ -850,7 +873,12 @@ def run_diff_case(res, ctx, tmp, cfg, lines, pending, resume=False):
         if cfg['rec'] == 'removed' and i == len(cfg['steps']) - 1:
             m.removeRecordedData()
         point = 'after solve call %d of %d' % (i + 1, len(cfg['steps']))
-        desc = dict(cfg, save_point=point, t=float(m.t), steps=cap.count,
+        if cfg['rec'] == 'mesh-moved' and i == len(cfg['steps']) - 1 and m._recordedTime is not None and len(m._recordedTime) > 2:
+            tmid = 0.5 * float(m._recordedTime[len(m._recordedTime) // 2] + m._recordedTime[len(m._recordedTime) // 2 - 1])
+            with _quiet():
+                m.setMeshtoRecordedTime(tmid)     # current profile = interpolated recorded profile; t unchanged
+            point += ', after setMeshtoRecordedTime(%.6g)' % tmid
+        desc = dict(cfg, save_point=point, t=float(m.t), steps_done=cap.count,
                     recorded=None if m._recordedX is None else list(np.shape(m._recordedX)))
         fresh = build_diff(cfg)
         ok = roundtrip_check(res, ctx, tmp, 'D', m, fresh, desc, lines, pending, 'diff')
@@ -982,6 +1010,50 @@ def _guard(res, key, what, desc, fn):
             return False, None
 
 
+def stored_is_thermo(res, cname, what, desc, stored, fn):
+    """the training data a surrogate keeps (and writes to its file) are the values the thermodynamics gives at the training points"""
+    ok, ref = _guard(res, 'thermodynamics-%s' % what, 'thermodynamics call at the training points', desc, fn)
+    res.count('stored-training-data-vs-thermodynamics')
+    if ok and not deep_close(stored, ref, 1e-9):
+        res.violate('stored-training-data-%s.%s-not-the-thermodynamics-values' % (cname, what),
+                    'the training data kept by the surrogate for %s are not what the thermodynamics returns at the training points' % what, desc,
+                    observed=[brief(o) for o in stored] if isinstance(stored, tuple) else brief(stored),
+                    required=[brief(o) for o in ref] if isinstance(ref, tuple) else brief(ref))
+
+
+def typed_queries(res, cname, getter, desc, fn, xq, Tq, want, multi=False):
+    """query a trained getter at its training points with the (integer-valued) temperatures passed as float array, int array,
+    list of Python ints, and point by point as Python float / Python int scalars: every form must give the training data, and
+    int-typed and float-typed queries of the same value must agree"""
+    Tq = np.asarray(Tq)
+    if not np.all(Tq == np.round(Tq)):
+        return
+    xq = np.asarray(xq, dtype=float)
+    ok, ref = _guard(res, 'trained-%s.%s-float-T' % (cname, getter), '%s(training x, float T array)' % getter, desc, lambda: fn(xq, Tq.astype(float)))
+    if not ok:
+        return
+    forms = [('int-array-T', lambda: fn(xq, Tq.astype(int))), ('int-list-T', lambda: fn(xq, [int(t) for t in Tq]))]
+    for name, call in forms:
+        ok, out = _guard(res, 'trained-%s.%s-%s' % (cname, getter, name), '%s(training x, %s)' % (getter, name), desc, call)
+        res.count('typed-query:' + name)
+        if ok and not (deep_close(out, ref, 1e-12) and deep_close(out, want, 1e-6)):
+            res.violate('trained-%s.%s-depends-on-type-of-T' % (cname, getter),
+                        '%s at the training points with %s differs from the float query / the training data' % (getter, name), dict(desc, T=Tq.tolist(), form=name),
+                        observed=brief(out) if not isinstance(out, tuple) else [brief(o) for o in out],
+                        required=brief(ref) if not isinstance(ref, tuple) else [brief(o) for o in ref])
+    for i in range(min(2, len(Tq))):
+        xi = xq[i] if multi else float(np.ravel(xq)[i])
+        wi = tuple(np.asarray(w)[i] for w in want) if isinstance(want, tuple) else np.asarray(want)[i]
+        for name, Ti in (('scalar-float-T', float(Tq[i])), ('scalar-int-T', int(Tq[i]))):
+            ok, out = _guard(res, 'trained-%s.%s-%s' % (cname, getter, name), '%s(single training point, %s)' % (getter, name), desc, lambda: fn(xi, Ti))
+            res.count('typed-query:' + name)
+            if ok and not deep_close(out, wi, 1e-6):
+                res.violate('trained-%s.%s-depends-on-type-of-T' % (cname, getter) if name == 'scalar-int-T' else 'trained-%s.%s-training-points' % (cname, getter),
+                            '%s at training point %d with %s does not give the training datum' % (getter, i, name), dict(desc, T=Tq.tolist(), form=name, point=i),
+                            observed=brief(out) if not isinstance(out, tuple) else [brief(o) for o in out],
+                            required=brief(wi) if not isinstance(wi, tuple) else [brief(o) for o in wi])
+
+
 def json_dict_check(res, s, s2, desc, jlines, jpending):
     """fromJson(toJson d) = d on every data dictionary, entry by entry (oracle) + queue arrays for the Lean model"""
     a = s._collectSurrogateData(); b = s2._collectSurrogateData()
@@ -1008,16 +1080,19 @@ def json_dict_check(res, s, s2, desc, jlines, jpending):
                                 observed=brief(w) if not isinstance(w, bool) else w, required=brief(v) if not isinstance(v, (bool, np.bool_)) else bool(v))
 
 
-def check_trained_binary(res, th, rng, tmp, jlines, jpending):
+def check_trained_binary(res, th, rng, tmp, jlines, jpending, force=None):
     vlib.use_repo()
     from kawin.thermo import BinarySurrogate
     cname = 'BinarySurrogate'
     logX = rng.random() < 0.5; logY = rng.random() < 0.5
     bc = rng.random() < 0.6
+    Tint = rng.random() < 0.5           # integer Kelvin grid handed over as ints (true) or as floats of the same value
+    if force is not None:               # every run covers both values of every option
+        logX = logY = bc = Tint = force
     kernel = rng.choice([{'kernel': 'cubic', 'normalize': True}, {'kernel': 'cubic', 'normalize': True}, {'kernel': 'linear', 'normalize': False}])
     nx = rng.randint(3, 4)
     xs = np.logspace(rng.uniform(-3.4, -3.1), rng.uniform(-2.3, -2.0), nx) if logX else np.linspace(10 ** rng.uniform(-3.3, -3.0), 10 ** rng.uniform(-2.3, -2.0), nx)
-    Ts = np.array([round(rng.uniform(660, 700), 1), round(rng.uniform(740, 790), 1)])
+    Ts = np.array([rng.randint(660, 700), rng.randint(740, 790)], dtype=int if Tint else float)
     gs = np.linspace(rng.uniform(50, 200), rng.uniform(2000, 4000), rng.randint(3, 4))
     if bc:
         xa, Ta = xs, Ts
@@ -1025,8 +1100,10 @@ def check_trained_binary(res, th, rng, tmp, jlines, jpending):
     else:                              # broadcast=False: explicit point lists of equal length
         xa = np.tile(xs, 2); Ta = np.repeat(Ts, len(xs))
         Tg = np.repeat(Ts, len(gs)); gg = np.tile(gs, 2)
-    desc = dict(surrogate=cname, logX=logX, logY=logY, broadcast=bc, kernel=kernel, x=xs.tolist(), T=Ts.tolist(), gExtra=gs.tolist(), trained=True)
+    desc = dict(surrogate=cname, logX=logX, logY=logY, broadcast=bc, kernel=kernel, x=xs.tolist(), T=Ts.tolist(), T_type='int' if Tint else 'float',
+                gExtra=gs.tolist(), trained=True)
     s = BinarySurrogate(th, kernelKwargs=dict(kernel))
+    res.count('trained-binary:T-' + desc['T_type'])
     res.count('trained-binary:broadcast=%s' % bc)
     phP, phM = th.phases[1], th.phases[0]
     # ---- driving force
@@ -1039,7 +1116,8 @@ def check_trained_binary(res, th, rng, tmp, jlines, jpending):
         if ok2 and not deep_close(out, (d['dg'], d['xp']), 1e-6):
             res.violate('trained-%s.getDrivingForce-training-points' % cname, 'trained driving-force surrogate does not reproduce its training data', desc,
                         observed=[brief(o) for o in out], required=[brief(d['dg']), brief(d['xp'])])
-        _guard(res, 'trained-%s.getDrivingForce-scalar' % cname, 'getDrivingForce(scalar x, scalar T)', desc, lambda: s.getDrivingForce(float(xq[0]), float(Tq[0])))
+        typed_queries(res, cname, 'getDrivingForce', desc, lambda x, T: s.getDrivingForce(x, T), xq, Tq, (d['dg'], d['xp']))
+        stored_is_thermo(res, cname, 'drivingForce', desc, (np.asarray(d['dg']), np.asarray(d['xp'])), lambda: th.getDrivingForce(xq, np.asarray(Tq, dtype=float), precPhase=phP, removeCache=True))
         res.case(('trained', cname, 'drivingForce', logX, bc, float(xs[0])), True)
     # ---- interfacial composition
     ok, _ = _guard(res, 'train-%s.trainInterfacialComposition%s' % (cname, '-grid' if bc else '-points'),
@@ -1053,6 +1131,9 @@ def check_trained_binary(res, th, rng, tmp, jlines, jpending):
         if ok2 and not deep_close(out, (d['xpalpha'], d['xpbeta']), 1e-6):
             res.violate('trained-%s.getInterfacialComposition-training-points' % cname, 'trained interfacial-composition surrogate does not reproduce its training data', desc,
                         observed=[brief(o) for o in out], required=[brief(d['xpalpha']), brief(d['xpbeta'])])
+        typed_queries(res, cname, 'getInterfacialComposition', desc, lambda g, T: s.getInterfacialComposition(T, g), gq, Tq, (d['xpalpha'], d['xpbeta']))
+        stored_is_thermo(res, cname, 'interfacialComposition', desc, (np.asarray(d['xpalpha']), np.asarray(d['xpbeta'])),
+                         lambda: th.getInterfacialComposition(np.asarray(Tq, dtype=float), np.array(gq, dtype=float), precPhase=phP))
         res.case(('trained', cname, 'interfacialComposition', logY, bc, float(gs[0])), True)
     # ---- diffusivity
     ok, _ = _guard(res, 'train-%s.trainDiffusivity' % cname, 'trainDiffusivity', desc, lambda: s.trainDiffusivity(xa, Ta, logX=logX, broadcast=bc))
@@ -1066,6 +1147,10 @@ def check_trained_binary(res, th, rng, tmp, jlines, jpending):
                           lambda: s.getTracerDiffusivity(xq, Tq))
         if ok2 and not deep_close(out, d['dtracer'], 1e-6):
             res.violate('trained-%s.getTracerDiffusivity-training-points' % cname, 'trained tracer diffusivity does not reproduce its training data', desc, brief(out), brief(d['dtracer']))
+        typed_queries(res, cname, 'getInterdiffusivity', desc, lambda x, T: s.getInterdiffusivity(x, T), xq, Tq, d['dnkj'])
+        stored_is_thermo(res, cname, 'diffusivity', desc, (np.asarray(d['dnkj']), np.asarray(d['dtracer'])),
+                         lambda: (th.getInterdiffusivity(xq, np.asarray(Tq, dtype=float), phase=phM), th.getTracerDiffusivity(xq, np.asarray(Tq, dtype=float), phase=phM)))
+        typed_queries(res, cname, 'getTracerDiffusivity', desc, lambda x, T: s.getTracerDiffusivity(x, T), xq, Tq, d['dtracer'])
         res.case(('trained', cname, 'diffusivity', logX, bc, float(xs[0])), True)
     # ---- rebuilt from its file
     f = os.path.join(tmp, 'surr_b_%d' % len(os.listdir(tmp)))
@@ -1077,6 +1162,11 @@ def check_trained_binary(res, th, rng, tmp, jlines, jpending):
     if not ok:
         return
     json_dict_check(res, s, s2, desc, jlines, jpending)
+    if phM in s2.diffusivityData:
+        d = s2.diffusivityData[phM]
+        d2 = dict(desc, rebuilt_from_file=True)
+        typed_queries(res, cname, 'getInterdiffusivity', d2, lambda x, T: s2.getInterdiffusivity(x, T), np.asarray(d['x'])[:, 0], d['T'], np.asarray(d['dnkj']))
+        typed_queries(res, cname, 'getTracerDiffusivity', d2, lambda x, T: s2.getTracerDiffusivity(x, T), np.asarray(d['x'])[:, 0], d['T'], np.asarray(d['dtracer']))
     xq = np.array([10 ** rng.uniform(-3.0, -2.3) for _ in range(3)]); Tq = np.array([rng.uniform(700, 740) for _ in range(3)])
     gq = np.array([rng.uniform(300, 1800) for _ in range(3)])
     for name, fn in [('getDrivingForce', lambda z: z.getDrivingForce(xq, Tq)), ('getInterfacialComposition', lambda z: z.getInterfacialComposition(Tq, gq)),
@@ -1091,10 +1181,21 @@ def check_trained_binary(res, th, rng, tmp, jlines, jpending):
         if not deep_close(a, b, 1e-9):
             res.violate('reload-%s.%s-predictions-differ' % (cname, name), 'surrogate rebuilt from its JSON file predicts differently', dict(desc, x=xq.tolist(), T=Tq.tolist(), g=gq.tolist()),
                         observed=brief(b) if not isinstance(b, tuple) else [brief(o) for o in b], required=brief(a) if not isinstance(a, tuple) else [brief(o) for o in a])
+    Ti = np.array([rng.randint(700, 740) for _ in range(3)])
+    for name, fn in [('getDrivingForce', lambda z, T: z.getDrivingForce(xq, T)), ('getInterfacialComposition', lambda z, T: z.getInterfacialComposition(T, gq)),
+                     ('getInterdiffusivity', lambda z, T: z.getInterdiffusivity(xq, T)), ('getTracerDiffusivity', lambda z, T: z.getTracerDiffusivity(xq, T))]:
+        for z, zn in ((s, 'original'), (s2, 'rebuilt')):
+            ok, pair = _guard(res, 'trained-%s.%s-int-T-query' % (cname, name), '%s at query points with int / float T (%s surrogate)' % (name, zn), desc,
+                              lambda: (fn(z, Ti.astype(float)), fn(z, Ti.astype(int)), fn(z, [int(t) for t in Ti])))
+            res.count('typed-query:random-points')
+            if ok and not (deep_close(pair[1], pair[0], 1e-12) and deep_close(pair[2], pair[0], 1e-12)):
+                res.violate('trained-%s.%s-depends-on-type-of-T' % (cname, name), '%s(x, T) gives different predictions for T = %s as ints and as floats (%s surrogate)' % (name, Ti.tolist(), zn),
+                            dict(desc, x=xq.tolist(), T=Ti.tolist(), g=gq.tolist()), observed=brief(pair[1]) if not isinstance(pair[1], tuple) else [brief(o) for o in pair[1]],
+                            required=brief(pair[0]) if not isinstance(pair[0], tuple) else [brief(o) for o in pair[0]])
     res.case(('reload', cname, logX, logY, bc), True)
 
 
-def check_trained_multi(res, th, rng, tmp, jlines, jpending):
+def check_trained_multi(res, th, rng, tmp, jlines, jpending, force=None):
     vlib.use_repo()
     from kawin.thermo import MulticomponentSurrogate
     from kawin.thermo.Surrogate import generateTrainingPoints
@@ -1103,13 +1204,17 @@ def check_trained_multi(res, th, rng, tmp, jlines, jpending):
     bc = rng.random() < 0.6
     a0 = 0.098 * rng.uniform(0.97, 1.0); c0 = 0.083 * rng.uniform(0.97, 1.0)
     pts = generateTrainingPoints([round(a0, 5), round(a0 * 1.08, 5)], [round(c0, 5), round(c0 * 1.1, 5)])
-    Ts = np.array([round(rng.uniform(1050, 1070), 1), round(rng.uniform(1090, 1110), 1)])
+    Tint = rng.random() < 0.5
+    if force is not None:
+        logX = bc = Tint = force
+    Ts = np.array([rng.randint(1050, 1070), rng.randint(1090, 1110)], dtype=int if Tint else float)
     if bc:
         xa, Ta = pts, Ts
     else:
         xa = np.tile(pts, (2, 1)); Ta = np.repeat(Ts, len(pts))
-    desc = dict(surrogate=cname, logX=logX, broadcast=bc, x=pts.tolist(), T=Ts.tolist(), trained=True)
+    desc = dict(surrogate=cname, logX=logX, broadcast=bc, x=pts.tolist(), T=Ts.tolist(), T_type='int' if Tint else 'float', trained=True)
     s = MulticomponentSurrogate(th)
+    res.count('trained-multi:T-' + desc['T_type'])
     res.count('trained-multi:broadcast=%s' % bc)
     phP, phM = th.phases[1], th.phases[0]
     ok, _ = _guard(res, 'train-%s.trainDrivingForce' % cname, 'trainDrivingForce', desc, lambda: s.trainDrivingForce(xa, Ta, logX=logX, broadcast=bc))
@@ -1119,6 +1224,7 @@ def check_trained_multi(res, th, rng, tmp, jlines, jpending):
         if ok2 and not deep_close(out, (d['dg'], d['xp']), 1e-6):
             res.violate('trained-%s.getDrivingForce-training-points' % cname, 'trained driving-force surrogate does not reproduce its training data', desc,
                         observed=[brief(o) for o in out], required=[brief(d['dg']), brief(d['xp'])])
+        typed_queries(res, cname, 'getDrivingForce', desc, lambda x, T: s.getDrivingForce(x, T), np.asarray(d['x']), d['T'], (d['dg'], d['xp']), multi=True)
         res.case(('trained', cname, 'drivingForce', logX, bc, float(pts[0][0])), True)
     ok, _ = _guard(res, 'train-%s.trainCurvature' % cname, 'trainCurvature', desc, lambda: s.trainCurvature(xa, Ta, logX=logX, broadcast=bc))
     if ok and len(s.curvatureData[phP]['x']) > 1:
@@ -1131,6 +1237,12 @@ def check_trained_multi(res, th, rng, tmp, jlines, jpending):
             if bad:
                 res.violate('trained-%s.curvatureFactor-training-points' % cname, 'trained curvature surrogate does not reproduce %s at training point %d' % (bad, i), desc,
                             observed={k: brief(getattr(c, k)) for k in bad}, required={k: brief(want[k]) for k in bad})
+            if float(d['T'][i]) == round(float(d['T'][i])):
+                ok4, c2 = _guard(res, 'trained-%s.curvatureFactor-int-T' % cname, 'curvatureFactor at a training point, T as Python int', desc,
+                                 lambda: s.curvatureFactor(np.asarray(d['x'][i]), int(d['T'][i])))
+                res.count('typed-query:scalar-int-T')
+                if ok4 and not deep_close(c2, c, 1e-12):
+                    res.violate('trained-%s.curvatureFactor-depends-on-type-of-T' % cname, 'curvatureFactor(x, int T) differs from curvatureFactor(x, float T)', dict(desc, point=i))
             ok3, b = _guard(res, 'trained-%s.impingementFactor' % cname, 'impingementFactor at a training point', desc, lambda: s.impingementFactor(np.asarray(d['x'][i]), d['T'][i]))
             if ok3 and not deep_close(b, d['beta'][i], 1e-6):
                 res.violate('trained-%s.impingementFactor-training-points' % cname, 'impingementFactor differs from the trained beta', desc, brief(b), brief(d['beta'][i]))
@@ -1153,6 +1265,8 @@ def check_trained_multi(res, th, rng, tmp, jlines, jpending):
                           lambda: s.getTracerDiffusivity(X[0], float(TT[0])))
         if ok2 and not deep_close(out, np.asarray(d['dtracer'])[0], 1e-6):
             res.violate('trained-%s.getTracerDiffusivity-training-points' % cname, 'single-point tracer diffusivity differs from the training datum', desc, brief(out), brief(np.asarray(d['dtracer'])[0]))
+        typed_queries(res, cname, 'getInterdiffusivity', desc, lambda x, T: s.getInterdiffusivity(x, T), X, TT, d['dnkj'], multi=True)
+        typed_queries(res, cname, 'getTracerDiffusivity', desc, lambda x, T: s.getTracerDiffusivity(x, T), X, TT, d['dtracer'], multi=True)
         res.case(('trained', cname, 'diffusivity', logX, bc, float(pts[0][0])), True)
     f = os.path.join(tmp, 'surr_m_%d' % len(os.listdir(tmp)))
     ok, _ = _guard(res, 'save-%s.toJson' % cname, 'toJson', desc, lambda: s.toJson(f))
@@ -1163,6 +1277,11 @@ def check_trained_multi(res, th, rng, tmp, jlines, jpending):
     if not ok:
         return
     json_dict_check(res, s, s2, desc, jlines, jpending)
+    if phM in s2.diffusivityData:
+        d = s2.diffusivityData[phM]
+        d2 = dict(desc, rebuilt_from_file=True)
+        typed_queries(res, cname, 'getInterdiffusivity', d2, lambda x, T: s2.getInterdiffusivity(x, T), np.asarray(d['x']), d['T'], np.asarray(d['dnkj']), multi=True)
+        typed_queries(res, cname, 'getTracerDiffusivity', d2, lambda x, T: s2.getTracerDiffusivity(x, T), np.asarray(d['x']), d['T'], np.asarray(d['dtracer']), multi=True)
     xq = np.array([round(a0 * 1.03, 5), round(c0 * 1.04, 5)]); Tq = float(rng.uniform(1072, 1088))
     for name, fn in [('getDrivingForce', lambda z: z.getDrivingForce(xq, Tq)), ('curvatureFactor', lambda z: z.curvatureFactor(xq, Tq)),
                      ('impingementFactor', lambda z: z.impingementFactor(xq, Tq)),
@@ -1177,6 +1296,16 @@ def check_trained_multi(res, th, rng, tmp, jlines, jpending):
         res.count('reload-prediction:' + ('bit-identical' if deep_same(a, b) else 'within-1e-9'))
         if not deep_close(a, b, 1e-9):
             res.violate('reload-%s.%s-predictions-differ' % (cname, name), 'surrogate rebuilt from its JSON file predicts differently', dict(desc, xq=xq.tolist(), Tq=Tq))
+    Ti = rng.randint(1072, 1088)
+    for name, fn in [('getDrivingForce', lambda z, T: z.getDrivingForce(xq, T)), ('curvatureFactor', lambda z, T: z.curvatureFactor(xq, T)),
+                     ('getInterdiffusivity', lambda z, T: z.getInterdiffusivity(xq, T)), ('getTracerDiffusivity', lambda z, T: z.getTracerDiffusivity(xq, T))]:
+        for z, zn in ((s, 'original'), (s2, 'rebuilt')):
+            ok, pair = _guard(res, 'trained-%s.%s-int-T-query' % (cname, name), '%s at a query point with int / float T (%s surrogate)' % (name, zn), desc,
+                              lambda: (fn(z, float(Ti)), fn(z, int(Ti)), fn(z, np.array([Ti]))))
+            res.count('typed-query:random-points')
+            if ok and not (deep_close(pair[1], pair[0], 1e-12) and deep_close(pair[2], pair[0], 1e-12)):
+                res.violate('trained-%s.%s-depends-on-type-of-T' % (cname, name), '%s(x, T) gives different predictions for T = %d as int and as float (%s surrogate)' % (name, Ti, zn),
+                            dict(desc, xq=xq.tolist(), T=Ti))
     res.case(('reload', cname, logX, bc), True)
 
 
@@ -1224,9 +1353,27 @@ def json_model_compare(res, ctx, rng, jlines, jpending, nrand):
 
 
 # ============================================================================ corr / search / replay
+def guarded(res, errs, key, desc, fn):
+    """one case: an exception raised inside the code under test is a violation (the harness does not raise on the unchanged
+    tree) with the case as replay; any other exception is a harness error, collected and re-raised at the end of corr()
+    only if the run found no violation"""
+    try:
+        fn()
+    except Exception as e:
+        tb = traceback.format_exc()
+        if ('File "%s' % vlib.REPO) in tb:
+            where = [l.strip() for l in tb.splitlines() if l.strip().startswith('File "%s' % vlib.REPO)][-1]
+            res.violate('%s-raises-%s' % (key, type(e).__name__),
+                        'the code under test raised %s: %s (%s)' % (type(e).__name__, str(e)[:140], where), desc,
+                        observed=tb[-900:], required='no exception')
+        else:
+            errs.append(tb)
+
+
 def corr(ctx, scale=1, oracle_only=False, only=None):
     import kwnruns
     res = Result()
+    errs = []
     res.monitored = list(MONITORED)
     res.rule = ('real Al-Zr KWN runs (random x0, T, class count, adaptive on/off, Euler/RK4, PSD recording on/off; thorough: + Ni-Cr-Al, 5-precipitate Al-Mg-Si) saved between solve calls and after completion; '
                 'random SinglePhaseModel runs (1-3 solutes, 5-40 nodes, 1-3 solve calls, recording on/off/switched off/switched on/removed; thorough: + real Ni-Cr(-Al) thermodynamics, HomogenizationModel); '
@@ -1241,12 +1388,14 @@ def corr(ctx, scale=1, oracle_only=False, only=None):
             np.seterr(all='ignore')
             # ---------------- diffusion
             if only in (None, 'diffusion'):
-                ncases = ctx.n(30, 400) * scale
+                ncases = ctx.n(26, 400) * scale
                 cfgs = [gen_diff_cfg(rng) for _ in range(ncases)]
-                for i, rec in enumerate(['off', 'on', 'removed', 'switched-off', 'switched-on']):      # every option in every run
+                for i, rec in enumerate(['off', 'on', 'removed', 'switched-off', 'switched-on', 'mesh-moved', 'switched-off']):  # every option in every run
                     cfgs[i]['rec'] = rec
+                    if rec in ('switched-off', 'switched-on') and len(cfgs[i]['steps']) < 2:
+                        cfgs[i]['steps'] = cfgs[i]['steps'] + [rng.randint(3, 40)]
                 for cfg in cfgs:
-                    run_diff_case(res, ctx, tmp, cfg, lines, pending, resume=ctx.thorough)
+                    guarded(res, errs, 'diffusion-case', dict(cfg), lambda: run_diff_case(res, ctx, tmp, cfg, lines, pending, resume=ctx.thorough))
                 if ctx.thorough:
                     for kind, els, N, steps in [('real-single', ['NI', 'CR'], 12, [6, 5]), ('real-single', ['NI', 'CR', 'AL'], 10, [5]),
                                                 ('real-homog', ['NI', 'CR'], 10, [4, 4])]:
@@ -1254,36 +1403,46 @@ def corr(ctx, scale=1, oracle_only=False, only=None):
                             E = len(els) - 1
                             cfg = dict(kind=kind, E=E, N=N, L=2e-3, els=els, rec=rec, tseed=0, D0=0.0, steps=steps,
                                        prof=[[0.08 + 0.02 * e, 0.3 - 0.1 * e, 'linear'] for e in range(E)], solver='euler', T=1473.15)
-                            run_diff_case(res, ctx, tmp, cfg, lines, pending, resume=False)
+                            guarded(res, errs, 'diffusion-case', dict(cfg), lambda: run_diff_case(res, ctx, tmp, cfg, lines, pending, resume=False))
             # ---------------- precipitation
             if only in (None, 'precipitation'):
                 cfgs = [gen_precip_cfg(rng) for _ in range(ctx.n(3, 20) * scale)]
                 cfgs[0]['record'] = True; cfgs[0]['adaptive'] = True
                 cfgs[1]['record'] = False
+                cfgs[1].update(cMax=2e-9, bins=40, minBins=30, maxBins=60, adaptive=True, steps=[rng.randint(270, 310), rng.randint(90, 130)])   # size classes adapt before the saves
+                cfgs[2]['record'] = rng.choice(['on-off', 'off-on']); cfgs[2]['adaptive'] = True
                 if ctx.thorough:
                     cfgs += [gen_precip_cfg(rng, 'NiCrAl') for _ in range(4)] + [gen_precip_cfg(rng, 'AlMgSi') for _ in range(2)]
                     cfgs[-6]['record'] = True; cfgs[-1]['record'] = True; cfgs[-2]['record'] = False
                 for i, cfg in enumerate(cfgs):
-                    run_precip_case(res, ctx, tmp, cfg, lines, pending, resume=ctx.thorough and (i < 4 or cfg['system'] != 'AlZr'))
+                    guarded(res, errs, 'precipitation-case', dict(cfg),
+                            lambda: run_precip_case(res, ctx, tmp, cfg, lines, pending, resume=ctx.thorough and (3 <= i < 7 or (cfg['system'] != 'AlZr' and not cfg['record']))))
             # ---------------- model comparison for the save/load cases
             if ctx.driver_ok and not oracle_only and lines:
-                compare_with_model(res, vlib.run_driver(PROP, lines), pending)
+                guarded(res, errs, 'model-comparison', {}, lambda: compare_with_model(res, vlib.run_driver(PROP, lines), pending))
                 res.traces = len(lines)
             # ---------------- surrogates
             if only in (None, 'surrogate'):
                 from kawin.thermo import BinarySurrogate, MulticomponentSurrogate
                 thb = kwnruns.therm_binary(); tht = kwnruns.therm_ternary()
                 for _ in range(ctx.n(2, 10) * scale):
-                    check_untrained(res, 'binary', BinarySurrogate, thb, rng)
-                    check_untrained(res, 'multi', MulticomponentSurrogate, tht, rng)
-                for _ in range(ctx.n(3, 30) * scale):
-                    check_trained_binary(res, thb, rng, tmp, jlines, jpending)
-                for _ in range(ctx.n(2, 12) * scale):
-                    check_trained_multi(res, tht, rng, tmp, jlines, jpending)
-                json_model_compare(res, ctx if not oracle_only else _NoDriver(ctx), rng, jlines, jpending, ctx.n(150, 1500))
+                    guarded(res, errs, 'untrained-binary-case', {}, lambda: check_untrained(res, 'binary', BinarySurrogate, thb, rng))
+                    guarded(res, errs, 'untrained-multi-case', {}, lambda: check_untrained(res, 'multi', MulticomponentSurrogate, tht, rng))
+                for k in range(ctx.n(3, 30) * scale):
+                    guarded(res, errs, 'trained-binary-case', {}, lambda: check_trained_binary(res, thb, rng, tmp, jlines, jpending, force=[True, False, None][min(k, 2)]))
+                for k in range(ctx.n(2, 12) * scale):
+                    guarded(res, errs, 'trained-multi-case', {}, lambda: check_trained_multi(res, tht, rng, tmp, jlines, jpending, force=[True, False, None][min(k, 2)]))
+                guarded(res, errs, 'json-case', {}, lambda: json_model_compare(res, ctx if not oracle_only else _NoDriver(ctx), rng, jlines, jpending, ctx.n(150, 1500)))
     finally:
         shutil.rmtree(tmp, ignore_errors=True)
-    res.extra['tables'] = {'precip_keys_per_phase': [e[0] for e in tables()['phW']], 'diffusion_lines': tables()['dw']}
+    try:
+        res.extra['tables'] = {'precip_keys_per_phase': [e[0] for e in tables()['phW']], 'diffusion_lines': tables()['dw']}
+    except Exception as e:            # the tables could not be extracted (already reported by regenerate): the oracle result stands
+        res.extra['tables'] = 'extraction failed: %s' % type(e).__name__
+    if errs:
+        res.extra['harness_errors'] = [e[-600:] for e in errs[:3]]
+        if not res.violations:
+            raise RuntimeError('harness error(s) in %d case(s), first:\n%s' % (len(errs), errs[0]))
     return res
 
 
@@ -1295,7 +1454,8 @@ class _NoDriver:
 
 def search(ctx, broken):
     """a proof / the tables / the correspondence no longer check: larger oracle-only sample on the implementation"""
-    return corr(ctx, scale=2, oracle_only=True)
+    # the generator continues the random stream, so these are new cases; same size in the quick tier to stay inside its time budget
+    return corr(ctx, scale=1 if not ctx.thorough else 2, oracle_only=True)
 
 
 def replay(ctx, entry):
@@ -1309,13 +1469,13 @@ def replay(ctx, entry):
             warnings.simplefilter('ignore')
             np.seterr(all='ignore')
             if 'system' in case:
-                cfg = {k: case[k] for k in ('system', 'x0', 'T', 'gamma', 'bins', 'minBins', 'maxBins', 'adaptive', 'record', 'steps', 'solver', 'strength')}
+                cfg = {k: case[k] for k in ('system', 'x0', 'T', 'gamma', 'bins', 'minBins', 'maxBins', 'adaptive', 'record', 'steps', 'solver', 'strength', 'cMax') if k in case}
                 if isinstance(cfg['x0'], list):
                     cfg['x0'] = tuple(cfg['x0'])
-                run_precip_case(res, ctx, tmp, cfg, [], [], resume=case.get('check') == 'resume')
+                guarded(res, [], 'precipitation-case', dict(cfg), lambda: run_precip_case(res, ctx, tmp, cfg, [], [], resume=case.get('check') == 'resume'))
             elif 'rec' in case:
                 cfg = {k: case[k] for k in ('kind', 'E', 'N', 'L', 'els', 'rec', 'tseed', 'D0', 'steps', 'prof', 'solver', 'T') if k in case}
-                run_diff_case(res, ctx, tmp, cfg, [], [], resume=case.get('check') == 'resume')
+                guarded(res, [], 'diffusion-case', dict(cfg), lambda: run_diff_case(res, ctx, tmp, cfg, [], [], resume=case.get('check') == 'resume'))
             else:
                 res = corr(ctx, oracle_only=True, only='surrogate')
     finally:
